@@ -194,6 +194,21 @@ def c02(ctx):
                                        "input": {"system": NAME, "a": a, "b": b}, "observed": g, "required": sp})
         if len(ctx.samples) < 4 and n:
             ctx.sample({"system": NAME, "a": strs[0], "b": strs[-1], "go": m[n - 1], "spec": sx(spec[n - 1])})
+    # tie between strings and the structures of theorem C02_gem_partial: for lower-case strings without a dot-dash the
+    # parse (repaired trimming) stands for exactly the canonical segments Gem::Version scans from the string
+    tie_in = [s for s in mg.uniq(norm_in) if not has_upper(s) and b".-" not in s]
+    to = ctx.model("svm_gem_tie", [sx([s]) for s in tie_in])
+    nb = nwf = 0
+    for s, l in zip(tie_in, to):
+        v = parse_sx(l)
+        if v[0] != 1:
+            continue
+        nb += 1
+        nwf += v[1]
+        if not v[2]:
+            ctx.divergence("svm_gem_tie", {"str": s, "what": "segments of the parsed structure differ from Gem::Version's canonical segments"}, "equal", l)
+    ctx.count("gem:c02:tie:strings", nb)
+    ctx.count("gem:c02:tie:in-theorem-domain", nwf)
     # the reference's normalised form (Gem::Version#to_s: "-" written ".pre.") is accepted
     norm_in = mg.uniq(norm_in)
     no = ctx.model("svm_spec_gem_norm", [sx([s]) for s in norm_in])
